@@ -190,7 +190,14 @@ func genFileExt(t *rapid.T, ext string) string {
 	}
 	var rows []row
 	for i := 0; i < n; i++ {
-		rows = append(rows, row{i + 1, fw.Range(t, "v", 0, 9), fw.PickU(t, "cell", cellPool)})
+		cell := fw.PickU(t, "cell", cellPool)
+		if cell == "" && ext != ".csv" && ext != ".tsv" {
+			// an empty JSON/LTSV string is a string, the same cell after a COMMIT into a CSV table and a
+			// re-load is NULL (one spelling for both): intermediate commits would then legitimately change
+			// later results (s || 'u'), which the commit-free reference program cannot reproduce
+			cell = "e"
+		}
+		rows = append(rows, row{i + 1, fw.Range(t, "v", 0, 9), cell})
 	}
 	var b strings.Builder
 	switch ext {
@@ -509,8 +516,30 @@ func kindsAfterCommit(tr []int, lv map[int]node) string {
 	return strings.Join(ks, ",")
 }
 
+// outOfDomain: a JSON / JSON Lines / LTSV source file with an empty string cell (see genFileExt): the
+// differential oracle is not sound for it, the case is discarded.
+func outOfDomain(c progCase) bool {
+	for name, body := range c.Files {
+		switch {
+		case strings.HasSuffix(name, ".json"), strings.HasSuffix(name, ".jsonl"):
+			if strings.Contains(body, `:""`) {
+				return true
+			}
+		case strings.HasSuffix(name, ".ltsv"):
+			if strings.Contains(body, ":\t") || strings.Contains(body, ":\n") {
+				return true
+			}
+		}
+	}
+	return false
+}
+
 func checkCLI(c progCase) (fw.Outcome, *fw.Violation) {
 	o := fw.Outcome{}
+	if outOfDomain(c) {
+		o.Discard = true
+		return o, nil
+	}
 	bin, err := run.Binary(fw.WorkDir(), false)
 	if err != nil {
 		return o, fw.Harness("%v", err)
@@ -844,6 +873,10 @@ func runInProc(c progCase, prog string, tag string) (trc []int, dump map[string]
 
 func checkInProc(c progCase) (fw.Outcome, *fw.Violation) {
 	o := fw.Outcome{}
+	if outOfDomain(c) {
+		o.Discard = true
+		return o, nil
+	}
 	var pb strings.Builder
 	render(c.Prog, &pb, "")
 	prog := pb.String()
